@@ -205,6 +205,8 @@ func (ex *Exec) callCommon(cc *ssa.CallCommon, in *ssa.Call, p token.Pos) *Val {
 	}
 	if isMutexOp(callee) {
 		c.trust("mutex operations are no-ops: reasoning is sequential under the lock")
+		// still a call event for assert-call clauses (e.g. WaitGroup.Add marking "a request was handed to the path")
+		ex.assertCalls(callee.String(), paramNames(callee), ex.argVals(cc), p)
 		return nil
 	}
 	if r, ok := ex.sortSlice(callee, cc, p); ok {
